@@ -117,6 +117,9 @@ def gen_tx_case(rng):
     elif late_fc == 'wait':
         ops.append(fc(1, 0))
     ops += [[0, 'proc', 1, 1], [0, 'proc', 1, 1]]
+    if where == 'after_standby' and late_fc == 'cts' and not late:
+        # the accepted ContinueToSend is followed by rate-limited Consecutive Frames: let the limiter window slide
+        ops += [[0, 'tick', 126 * 10**6], [0, 'proc', 1, 1], [0, 'proc', 1, 1]] * 3
     mark = len(ops)
     ops += [[0, 'tick', 3 * T + 11], [0, 'proc', 1, 1], [0, 'tick', T + 1], [0, 'proc', 1, 1]]
     return {'insts': [inst], 'ops': ops, 'nops': len(ops), 'late': late, 'kind': 'tx', 'T_ms': Tms, 'gap_ns': gap, 'where': where,
@@ -141,6 +144,10 @@ def oracle_tx(case, lines, insts):
     else:
         if nto:
             fails.append(('C07:timeout-before-deadline', '%s: gap %d ns <= T=%d ms but FlowControlTimeoutError reported' % (case['where'], case['gap_ns'], case['T_ms'])))
+        elif case['late_fc'] == 'cts' and case['where'] == 'after_standby':
+            # rate limited (one frame per window): accepted = the sender left WAIT_FC and a Consecutive Frame followed
+            if not any(' tx=C ' in l for l in head) and done != ['done:0:1']:
+                fails.append(('C07:flow-control-before-deadline-rejected', 'ContinueToSend processed before the deadline was not followed by Consecutive Frames, completions %s errors %s' % (done, errs[:3])))
         elif case['late_fc'] == 'cts' and done != ['done:0:1']:
             fails.append(('C07:flow-control-before-deadline-rejected', 'ContinueToSend processed before the deadline, completions %s errors %s' % (done, errs[:3])))
     allerrs = [e[4:] for l in lines for e in split_line(l)[0] if e.startswith('err:')]
